@@ -1112,10 +1112,202 @@ func c13Run(r *Run) {
 		r.fail("anchor not found: the method that commits a pending status at the end of the exchange (commitPending)")
 		return
 	}
+	// wrappers: a function that begins the response and hands the writer back inside the value it
+	// returns (x := openExchange(w, r)) is a beginner for its callers; a method that commits the writer
+	// held in such a value (defer x.close()) is a committer. The field names which writer it is.
+	begins := map[types.Object]*types.Var{begin: nil}
+	commits := map[*types.Func]*types.Var{commitPending: nil}
+	openerUnits := map[*ast.FuncDecl]bool{}
+	for changed := true; changed; {
+		changed = false
+		for _, fd := range funcDecls(pkg) {
+			obj := info.Defs[fd.Name]
+			if obj == nil || fd.Body == nil {
+				continue
+			}
+			if _, done := begins[obj]; !done {
+				if f, ok := c13Opener(info, fd, begins); ok {
+					begins[obj] = f
+					openerUnits[fd] = true
+					r.ok(funcKey(pkg, fd)+"#hands-writer-on", fd.Pos(), "begins the response and returns the writer inside its result: pairing is judged at its callers")
+					changed = true
+				}
+			}
+			if fn, ok := obj.(*types.Func); ok && fd.Recv != nil {
+				if _, done := commits[fn]; !done {
+					if f, ok := c13Closer(info, fd, commits); ok {
+						commits[fn] = f
+						changed = true
+					}
+				}
+			}
+		}
+	}
 	for _, u := range funcUnits(pkg) {
 		// direct statements only (not nested literals, which are their own units)
-		c13Pair(r, pkg, u, begin, commitPending)
+		if u.lit == nil && openerUnits[u.decl] {
+			continue
+		}
+		c13Pair(r, pkg, u, begins, commits)
 	}
+}
+
+// c13Opener: fd calls a beginner, keeps the writer in a local or in a field of a local, returns that
+// local (or its address) on every return, defers nothing and runs no handler code itself.
+func c13Opener(info *types.Info, fd *ast.FuncDecl, begins map[types.Object]*types.Var) (*types.Var, bool) {
+	if fd.Type.Results == nil {
+		return nil, false
+	}
+	var holder types.Object
+	var field *types.Var
+	n, bad := 0, false
+	ast.Inspect(fd.Body, func(x ast.Node) bool {
+		switch x := x.(type) {
+		case *ast.FuncLit, *ast.DeferStmt, *ast.GoStmt:
+			bad = true
+			return false
+		case *ast.CallExpr:
+			if callee, ok := calleeOf(info, x).(*types.Func); ok {
+				switch callee.Name() {
+				case "Call", "ServeHTTP", "GetValue":
+					bad = true
+				}
+			}
+		case *ast.AssignStmt:
+			if len(x.Rhs) != 1 {
+				return true
+			}
+			c, ok := ast.Unparen(x.Rhs[0]).(*ast.CallExpr)
+			if !ok {
+				return true
+			}
+			inner, isBegin := begins[calleeOf(info, c)]
+			if !isBegin {
+				return true
+			}
+			n++
+			switch l := ast.Unparen(x.Lhs[0]).(type) {
+			case *ast.Ident:
+				holder = info.ObjectOf(l)
+				field = inner
+			case *ast.SelectorExpr:
+				if id, ok := ast.Unparen(l.X).(*ast.Ident); ok && inner == nil {
+					holder = info.ObjectOf(id)
+					if sel, ok := info.Selections[l]; ok {
+						field, _ = sel.Obj().(*types.Var)
+					}
+				} else {
+					bad = true
+				}
+			default:
+				bad = true
+			}
+		}
+		return true
+	})
+	if bad || n != 1 || holder == nil {
+		return nil, false
+	}
+	if v, ok := holder.(*types.Var); !ok || v.Parent() == nil || v.Parent() == v.Pkg().Scope() {
+		return nil, false
+	}
+	rets := 0
+	ast.Inspect(fd.Body, func(x ast.Node) bool {
+		rs, ok := x.(*ast.ReturnStmt)
+		if !ok {
+			return true
+		}
+		rets++
+		found := false
+		for _, e := range rs.Results {
+			e = ast.Unparen(e)
+			if u, ok := e.(*ast.UnaryExpr); ok && u.Op == token.AND {
+				e = ast.Unparen(u.X)
+			}
+			if id, ok := e.(*ast.Ident); ok && info.ObjectOf(id) == holder {
+				found = true
+			}
+		}
+		if !found {
+			bad = true
+		}
+		return true
+	})
+	if bad || rets == 0 {
+		return nil, false
+	}
+	return field, true
+}
+
+// c13Closer: a method whose body, unconditionally (a top-level statement or defer), calls a committer on
+// the receiver or on one field of the receiver.
+func c13Closer(info *types.Info, fd *ast.FuncDecl, commits map[*types.Func]*types.Var) (*types.Var, bool) {
+	if len(fd.Recv.List) != 1 || len(fd.Recv.List[0].Names) != 1 {
+		return nil, false
+	}
+	recv := info.Defs[fd.Recv.List[0].Names[0]]
+	for _, st := range fd.Body.List {
+		var c *ast.CallExpr
+		switch x := st.(type) {
+		case *ast.ExprStmt:
+			c, _ = ast.Unparen(x.X).(*ast.CallExpr)
+		case *ast.DeferStmt:
+			c = x.Call
+		case *ast.ReturnStmt, *ast.IfStmt, *ast.SwitchStmt, *ast.ForStmt, *ast.RangeStmt, *ast.TypeSwitchStmt, *ast.SelectStmt, *ast.BranchStmt, *ast.LabeledStmt, *ast.GoStmt:
+			// whatever may leave the body before the commit ends the unconditional prefix
+			if containsReturnOrPanic(st) {
+				return nil, false
+			}
+		}
+		if c == nil {
+			continue
+		}
+		callee, ok := calleeOf(info, c).(*types.Func)
+		if !ok {
+			continue
+		}
+		inner, isCommit := commits[callee]
+		if !isCommit {
+			continue
+		}
+		se, ok := ast.Unparen(c.Fun).(*ast.SelectorExpr)
+		if !ok {
+			continue
+		}
+		switch x := ast.Unparen(se.X).(type) {
+		case *ast.Ident:
+			if info.Uses[x] == recv {
+				return inner, true
+			}
+		case *ast.SelectorExpr:
+			if id, ok := ast.Unparen(x.X).(*ast.Ident); ok && info.Uses[id] == recv && inner == nil {
+				if sel, ok := info.Selections[x]; ok {
+					if f, ok := sel.Obj().(*types.Var); ok {
+						return f, true
+					}
+				}
+			}
+		}
+	}
+	return nil, false
+}
+
+func containsReturnOrPanic(st ast.Stmt) bool {
+	found := false
+	ast.Inspect(st, func(n ast.Node) bool {
+		switch x := n.(type) {
+		case *ast.FuncLit:
+			return false
+		case *ast.ReturnStmt:
+			found = true
+		case *ast.CallExpr:
+			if id, ok := ast.Unparen(x.Fun).(*ast.Ident); ok && id.Name == "panic" {
+				found = true
+			}
+		}
+		return true
+	})
+	return found
 }
 
 // spMap applies f to every (status assigned, pending assigned) combination in the set.
@@ -1140,14 +1332,16 @@ func spMap(sp uint8, f func(a, p bool) (bool, bool)) uint8 {
 
 type pairState struct{ pending map[types.Object]token.Pos }
 
-func c13Pair(r *Run, pkg *packages.Package, u funcUnit, begin types.Object, commitPending *types.Func) {
+func c13Pair(r *Run, pkg *packages.Package, u funcUnit, begins map[types.Object]*types.Var, commits map[*types.Func]*types.Var) {
+	isBegin := func(c *ast.CallExpr) bool { _, ok := begins[calleeOf(pkg.TypesInfo, c)]; return ok }
+	heldIn := map[types.Object]*types.Var{} // writer variable → field of it that holds the bufferedWriter (nil: it is the writer)
 	info := pkg.TypesInfo
 	has := false
 	ast.Inspect(u.body, func(n ast.Node) bool {
 		if l, ok := n.(*ast.FuncLit); ok && (u.lit == nil || l != u.lit) {
 			return false
 		}
-		if c, ok := n.(*ast.CallExpr); ok && calleeOf(info, c) == begin {
+		if c, ok := n.(*ast.CallExpr); ok && isBegin(c) {
 			has = true
 		}
 		return true
@@ -1203,7 +1397,7 @@ func c13Pair(r *Run, pkg *packages.Package, u funcUnit, begin types.Object, comm
 		switch x := stm.(type) {
 		case *ast.AssignStmt:
 			if len(x.Rhs) == 1 {
-				if c, ok := ast.Unparen(x.Rhs[0]).(*ast.CallExpr); ok && calleeOf(info, c) == begin && len(x.Lhs) >= 1 {
+				if c, ok := ast.Unparen(x.Rhs[0]).(*ast.CallExpr); ok && isBegin(c) && len(x.Lhs) >= 1 {
 					if id, ok := x.Lhs[0].(*ast.Ident); ok {
 						o := info.Defs[id]
 						if o == nil {
@@ -1211,6 +1405,7 @@ func c13Pair(r *Run, pkg *packages.Package, u funcUnit, begin types.Object, comm
 						}
 						if o != nil && id.Name != "_" {
 							s.pending[o] = c.Pos()
+							heldIn[o] = begins[calleeOf(info, c)]
 							if _, ok := reported[c.Pos()]; !ok {
 								reported[c.Pos()] = ""
 							}
@@ -1221,15 +1416,30 @@ func c13Pair(r *Run, pkg *packages.Package, u funcUnit, begin types.Object, comm
 				}
 			}
 		case *ast.DeferStmt:
-			if callee, ok := calleeOf(info, x.Call).(*types.Func); ok && callee == commitPending {
-				if se, ok := ast.Unparen(x.Call.Fun).(*ast.SelectorExpr); ok {
-					if id, ok := ast.Unparen(se.X).(*ast.Ident); ok {
-						delete(s.pending, info.Uses[id])
+			if callee, ok := calleeOf(info, x.Call).(*types.Func); ok {
+				if via, isCommit := commits[callee]; isCommit {
+					if se, ok := ast.Unparen(x.Call.Fun).(*ast.SelectorExpr); ok {
+						switch rx := ast.Unparen(se.X).(type) {
+						case *ast.Ident:
+							// defer rw.commitPending() / defer x.close(): the committer must reach the field the beginner filled
+							if o := info.Uses[rx]; heldIn[o] == via {
+								delete(s.pending, o)
+							}
+						case *ast.SelectorExpr:
+							// defer x.writer.commitPending()
+							if id, ok := ast.Unparen(rx.X).(*ast.Ident); ok && via == nil {
+								if sel, ok := info.Selections[rx]; ok {
+									if o := info.Uses[id]; heldIn[o] != nil && heldIn[o] == sel.Obj() {
+										delete(s.pending, o)
+									}
+								}
+							}
+						}
 					}
 				}
 			}
 		case *ast.ExprStmt:
-			if c, ok := ast.Unparen(x.X).(*ast.CallExpr); ok && calleeOf(info, c) == begin {
+			if c, ok := ast.Unparen(x.X).(*ast.CallExpr); ok && isBegin(c) {
 				reported[c.Pos()] = "result of beginResponse discarded"
 			}
 		}
